@@ -2,7 +2,8 @@
 
 // Contracts for the deductive verifier in /verif (comment-only; compiled only with -tags verif).
 // Under contract: one iteration of each scale's worker (file name symbolic, file contents a ghost function of
-// the name) and the row writer. main, toBeTestFileNum and the filepath.Walk callbacks are not under contract.
+// the name), the row writer, and main's selection of header and worker for the inferred scale. toBeTestFileNum
+// and the filepath.Walk callbacks are not under contract (toBeTestFileNum: assumed contract, body not verified).
 // The expected column list is generated from the header constants by the verifier on every run (C13).
 
 package main
@@ -34,3 +35,12 @@ package main
 //@     invariant done(wg) == done(wg)@pre + $i
 //@   loop 2
 //@     invariant 0 <= j && j <= len(r.P) && done(wg) == done(wg)@pre + $i1
+
+//@ func toBeTestFileNum
+//@   trusted
+//@   modifies nothing
+
+//@ func main
+//@   modifies nothing
+//@   panics only when true
+//@   calls worker in {worker_2E4, worker_1E6, worker_1E8}
